@@ -280,6 +280,31 @@ pub fn pool(tier: Tier, seed: u64, thin: usize) -> Vec<Family> {
         let keys = vec![vec![b'a', b'z'], long, vec![b'c']];
         (keys, [5usize, 0][i % 2])
     }));
+    // F4c: dense product sets Sigma^L: far more keys than bytes in the file (maximal sharing)
+    fams.push(fam("dense-product", 6, seed, |i, _| {
+        let (sigma, l): (Vec<u8>, usize) = match i % 6 {
+            0 => (b"ab".to_vec(), 8),
+            1 => ((b'a'..b'a' + 16).collect(), 3),
+            2 => (b"abcd".to_vec(), 6),
+            3 => ((0..=255u8).collect(), 2),
+            4 => (b"ab".to_vec(), 12),
+            _ => (vec![0x00, 0xff], 10),
+        };
+        let mut keys: Vec<Vec<u8>> = vec![vec![]];
+        for _ in 0..l {
+            let mut next = Vec::with_capacity(keys.len() * sigma.len());
+            for k in &keys {
+                for &b in &sigma {
+                    let mut t = k.clone();
+                    t.push(b);
+                    next.push(t);
+                }
+            }
+            keys = next;
+        }
+        keys.sort();
+        (keys, [0usize, 0, 0, 0, 1, 0][i % 6])
+    }));
     // F5: corpora
     {
         let names: Vec<&'static str> = match tier {
